@@ -221,3 +221,9 @@ func (al *algebra) String(a ratf) string {
 	}
 	return "(" + n + ")/(" + al.polyString(a.den) + ")"
 }
+
+// intdivAtom: the integer quotient of a by b, as an opaque function of the exact quotient a/b —
+// so that the same division written at another scale (a·k over b·k) is the same term.
+func intdivAtom(al *algebra, a, b ratf) ratf {
+	return al.atom("intdiv", "intdiv", rdiv(a, b))
+}
